@@ -1,4 +1,4 @@
-/- C25 driver: `C25 run [args,…]`, `C25 quote|unquote|parse <text>`, `C25 read <set-cookie value>` -/
+/- C25 driver: `C25 run [args,…]`, `C25 serve [[clear|[cookie,args],…],[ending,param]]`, `C25 quote|unquote|parse <text>`, `C25 read <set-cookie value>` -/
 import TornadoModel.Base.Wire
 import TornadoModel.C25.Spec
 namespace TornadoModel.C25.Drv
@@ -47,6 +47,27 @@ def encAttr (a : Spec.Attr) : V := .list [V.ofCps a.1, match a.2 with | some v =
 def encMorsel (m : Morsel) : V :=
   .list [V.ofCps m.key, V.ofCps m.value, V.ofCps m.coded, .list ((Spec.requested m).map encAttr)]
 
+/-- `clear` or `[cookie, args]` -/
+def decHOp (v : V) : Option HOp :=
+  match v with
+  | .atom "clear" => some .clear
+  | .list [.atom "cookie", a] => (decArgs a).map .cookie
+  | _ => none
+
+/-- `[kind, parameter]` -/
+def decEnding (v : V) : Option Ending :=
+  match v with
+  | .list [.atom "finish", _] => some .finish
+  | .list [.atom "finishChunk", _] => some .finishChunk
+  | .list [.atom "autoFinish", _] => some .autoFinish
+  | .list [.atom "raiseFinish", _] => some .raiseFinish
+  | .list [.atom "sendError", c] => c.nat?.map .sendError
+  | .list [.atom "raiseHTTP", c] => c.nat?.map .raiseHTTP
+  | .list [.atom "missingArg", _] => some .missingArg
+  | .list [.atom "raiseOther", _] => some .raiseOther
+  | .list [.atom "redirect", p] => p.bool?.map .redirect
+  | _ => none
+
 def handle (toks : List String) : String :=
   match toks with
   | [cmd, arg] =>
@@ -63,6 +84,15 @@ def handle (toks : List String) : String :=
                | .error e => encErr e),
               .list (r.1.map encMorsel)]
         | none => err "bad-op"
+      | "serve" => match a with
+        | .list [.list ops, e] => match ops.mapM decHOp, decEnding e with
+          | some ops, some e =>
+            let r := serveHandler ops e
+            (match r.2 with
+             | .ok (st, l) => ok [.list (r.1.map encOut), .list (l.map V.ofCps), .int st]
+             | .error x => ok [.list (r.1.map encOut), encErr x, .none])
+          | _, _ => err "bad-op"
+        | _ => err "bad-op"
       | "quote" => match a.cps? with
         | some t => ok [V.ofCps (quote t)]
         | none => err "bad-arg"
